@@ -383,7 +383,9 @@ theorem rt_literal (std : Std) (vs : List Lit) (l : Lit) (hm : l ∈ vs) (hr : j
   rw [dump_lit] at h; cases h
   rw [toJ_litToD, loadV1]
   unfold v1Literal
-  have hany : vs.any (fun l' => jEqLit l.toJ l') = true := List.any_eq_true.2 ⟨l, hm, hr⟩
+  have hst : jSameType l.toJ l = true := by cases l <;> rfl
+  have hany : vs.any (fun l' => jEqLit l.toJ l' && jSameType l.toJ l') = true :=
+    List.any_eq_true.2 ⟨l, hm, by rw [hr, hst]; rfl⟩
   simp only [lit_hashable, Bool.not_true, Bool.false_eq_true, if_false, hany, if_true, litJ_toPy, pure, Except.pure]
 
 /-- the positional field expressions of a NamedTuple, from position `pre.length` on -/
